@@ -260,6 +260,59 @@ func c3Roundtrip(cf c3Cfg, x slip.Object) (text, aspect string, back c3Read) {
 	return
 }
 
+// c3WithGlobal runs f while the package-global printer (what *print-…* name when nothing is bound)
+// is changed by set, and restores it.
+func c3WithGlobal(set func(g *slip.Printer), f func()) {
+	g := slip.DefaultPrinter()
+	saved := *g
+	defer func() { *g = saved }()
+	set(g)
+	f()
+}
+
+// c3AntiGlobal makes every setting of the global printer differ from cf.
+func c3AntiGlobal(cf c3Cfg) func(g *slip.Printer) {
+	return func(g *slip.Printer) {
+		g.Base = uint(2 + (cf.base+15)%35)
+		g.Radix = !cf.radix
+		if cf.cs == "u" {
+			g.Case = slip.Symbol(":capitalize")
+		} else {
+			g.Case = slip.Symbol(":upcase")
+		}
+		g.Pretty = !cf.pretty
+		g.RightMargin = uint(cf.margin%200 + 7)
+		g.Readably = !cf.readably
+		g.Array = !cf.array
+		g.Escape = false
+		g.Length, g.Level, g.Lines = 1, 1, 1
+		g.Prec = 3
+	}
+}
+
+// c3PrintUnderAntiGlobal prints x with the scoped printer of cf (made from the standard global
+// printer, as c3Print does) while the global printer holds the opposite of every setting.
+func c3PrintUnderAntiGlobal(cf c3Cfg, x slip.Object) (text string) {
+	p := cf.printer()
+	c3WithGlobal(c3AntiGlobal(cf), func() {
+		o := lib.Protect(func() slip.Object { return slip.String(p.Append(nil, x, 0)) })
+		if o.Ok {
+			text = string(o.Value.(slip.String))
+		} else {
+			text = "condition:" + o.Class
+		}
+	})
+	return
+}
+
+// c3AltReadBases: the read bases a radix-marked text is read under besides the standard one.
+func c3AltReadBases(base int) []int {
+	if base == 36 {
+		return []int{2, 36}
+	}
+	return []int{36, base}
+}
+
 func minInt(a, b int) int {
 	if a < b {
 		return a
@@ -1354,6 +1407,8 @@ type c3Result struct {
 	wAspect              string // property failure (in-domain cases), "" when it holds
 	prettyAspect         string // pretty vs flat read back differently
 	flatRead, prettyRead c3Read
+	leakAspect, leakText string // the text depends on the package-global printer (scoped printer in use)
+	altAspect            string // radix-marked numbers read differently under another *read-base*
 }
 
 func c3Eval(cs c3Case) c3Result {
@@ -1369,6 +1424,38 @@ func c3Eval(cs c3Case) c3Result {
 			res.wAspect = pa
 		} else {
 			res.wAspect = fa
+		}
+	}
+	// the printer in use is the scoped one (a copy, as write-to-string / prin1 / format ~S / a let
+	// binding / swank make it): its text must not depend on the package-global printer. Both texts are
+	// printed again while the global printer holds the opposite of every setting.
+	if !strings.HasPrefix(fa, "print-condition") {
+		if t2 := c3PrintUnderAntiGlobal(ff, x); t2 != res.flat {
+			res.leakAspect, res.leakText = "global-printer-leak:flat", t2
+		}
+	}
+	if res.leakAspect == "" && !strings.HasPrefix(pa, "print-condition") {
+		if t2 := c3PrintUnderAntiGlobal(pf, x); t2 != res.pretty {
+			res.leakAspect, res.leakText = "global-printer-leak:pretty", t2
+		}
+	}
+	// a number behind a radix prefix (#b #o #x #NNr) means the same under every *read-base*
+	if cs.inDomain() && cs.cf.radix && cs.cf.base != 10 && fa == "" && cs.obj.altReadable() {
+		for _, rb := range c3AltReadBases(cs.cf.base) {
+			back := c3ReadText(res.flat, rb)
+			a := ""
+			switch {
+			case !back.ok:
+				a = "read-condition:" + back.class
+			case back.count != 1:
+				a = fmt.Sprintf("read-count:%d", minInt(back.count, 3))
+			default:
+				a = c3Compare(x, back.obj)
+			}
+			if a != "" {
+				res.altAspect = fmt.Sprintf("read-base:%s:%s", c3BaseClass(rb), a)
+				break
+			}
 		}
 	}
 	// pretty printing changes only white space: both texts read back to equal objects (or both
@@ -1396,12 +1483,58 @@ func c3Eval(cs c3Case) c3Result {
 	return res
 }
 
-// c3LispRoundtrip runs the round trip through the Lisp functions with the object bound to a variable.
-func c3LispRoundtrip(cs c3Case) string {
+// c3LispVariants: the ways a Lisp program selects the printer settings. Every one makes a scoped
+// printer (or, the last, sets the global one) and must write the text the Go-level scoped printer writes.
+var c3LispVariants = []string{"write-keys", "let-prin1", "let-format", "let-stream", "let-write", "global-prin1"}
+
+func (cf c3Cfg) lispLet() string {
+	tn := func(x bool) string {
+		if x {
+			return "t"
+		}
+		return "nil"
+	}
+	cs := map[string]string{"d": ":downcase", "u": ":upcase", "c": ":capitalize", "n": "nil"}[cf.cs]
+	return fmt.Sprintf("(let ((*print-base* %d) (*print-radix* %s) (*print-case* %s) (*print-pretty* %s) (*print-right-margin* %d) (*print-readably* %s) (*print-array* %s) (*print-escape* t))",
+		cf.base, tn(cf.radix), cs, tn(cf.pretty), cf.margin, tn(cf.readably), tn(cf.array))
+}
+
+// c3LispRoundtrip prints the object (bound to a variable) through one of the Lisp-level ways and reads
+// the text back with read-from-string; want is the text of the Go-level scoped printer.
+func c3LispRoundtrip(cs c3Case, variant, want string) string {
 	scope := slip.NewScope()
 	x := cs.obj.object()
 	scope.Let(slip.Symbol("c03-x"), x)
-	o := lib.EvalString(scope, fmt.Sprintf("(let ((*read-base* %d)) (read-from-string (write-to-string c03-x %s)))", cs.cf.readBase(), cs.cf.lispKeys()))
+	var o lib.Outcome
+	switch variant {
+	case "write-keys":
+		o = lib.EvalString(scope, fmt.Sprintf("(write-to-string c03-x %s)", cs.cf.lispKeys()))
+	case "let-prin1":
+		o = lib.EvalString(scope, cs.cf.lispLet()+" (prin1-to-string c03-x))")
+	case "let-format":
+		o = lib.EvalString(scope, cs.cf.lispLet()+" (format nil \"~S\" c03-x))")
+	case "let-stream":
+		o = lib.EvalString(scope, cs.cf.lispLet()+" (with-output-to-string (c03-s) (prin1 c03-x c03-s)))")
+	case "let-write":
+		o = lib.EvalString(scope, cs.cf.lispLet()+" (with-output-to-string (c03-s) (write c03-x :stream c03-s)))")
+	default: // global-prin1: the settings are in the global printer itself (setq at top level)
+		c3WithGlobal(func(g *slip.Printer) {
+			p := cs.cf.printer()
+			g.Base, g.Radix, g.Case, g.Pretty, g.RightMargin, g.Readably, g.Array = p.Base, p.Radix, p.Case, p.Pretty, p.RightMargin, p.Readably, p.Array
+		}, func() { o = lib.EvalString(scope, "(prin1-to-string c03-x)") })
+	}
+	if !o.Ok {
+		return "print-condition:" + o.Class
+	}
+	text, ok := o.Value.(slip.String)
+	if !ok {
+		return "print-result:" + c3TypeOf(o.Value)
+	}
+	if string(text) != want {
+		return "text"
+	}
+	scope.Let(slip.Symbol("c03-text"), text)
+	o = lib.EvalString(scope, fmt.Sprintf("(let ((*read-base* %d)) (read-from-string c03-text))", cs.cf.readBase()))
 	if !o.Ok {
 		return "condition:" + o.Class
 	}
@@ -1414,10 +1547,23 @@ func c3LispRoundtrip(cs c3Case) string {
 
 func c3WFails(cs c3Case) string {
 	res := c3Eval(cs)
-	if res.wAspect != "" {
-		return res.wAspect
+	for _, a := range []string{res.wAspect, res.prettyAspect, res.leakAspect, res.altAspect} {
+		if a != "" {
+			return a
+		}
 	}
-	return res.prettyAspect
+	if cs.inDomain() {
+		want := res.flat
+		if cs.cf.pretty {
+			want = res.pretty
+		}
+		for _, v := range c3LispVariants {
+			if a := c3LispRoundtrip(cs, v, want); a != "" {
+				return "lisp-level:" + v + ":" + a
+			}
+		}
+	}
+	return ""
 }
 
 // ---------------------------------------------------------------------------------------------
@@ -1613,12 +1759,30 @@ func c03Run(c *lib.Ctx, cases []c3Case, nSweep int) {
 				"observed": "the pretty and the flat text do not read back to equal objects", "expected": "equal objects",
 				"expected_from": "property statement (pretty printing changes only white space)"})
 		}
+		if res.leakAspect != "" {
+			want := res.flat
+			if strings.HasSuffix(res.leakAspect, "pretty") {
+				want = res.pretty
+			}
+			report(res.leakAspect, map[string]any{"printed": want, "observed": "with the opposite settings in the global printer the same scoped printer writes: " + res.leakText,
+				"expected": "the text does not depend on the global printer when a scoped printer (write-to-string keys, let-bound *print-…*, prin1, swank) is in use",
+				"expected_from": "property statement (under every setting of the printer control variables)"})
+		}
+		if res.altAspect != "" {
+			report(res.altAspect, map[string]any{"printed": res.flat, "observed": "the radix-marked text read under another *read-base* does not give back the object",
+				"expected": "#b #o #x #NNr fix the base of the number that follows, whatever *read-base* is", "expected_from": "property statement (read back equal)"})
+		}
 		// the same round trip at Lisp level on a sample: (read-from-string (write-to-string x …))
 		if cs.inDomain() && res.wAspect == "" && i%13 == 0 {
 			lispChecked++
-			if a := c3LispRoundtrip(cs); a != "" {
-				report("lisp-level:"+a, map[string]any{"observed": "(read-from-string (write-to-string x " + cs.cf.lispKeys() + ")) " + a,
-					"expected": "the same result as slip.Read(Printer.Append(x)): an object equal to x", "expected_from": "property statement"})
+			variant := c3LispVariants[(i/13)%len(c3LispVariants)]
+			want := res.flat
+			if cs.cf.pretty {
+				want = res.pretty
+			}
+			if a := c3LispRoundtrip(cs, variant, want); a != "" {
+				report("lisp-level:"+variant+":"+a, map[string]any{"observed": "printing through " + variant + " (" + cs.cf.lispKeys() + ") and read-from-string: " + a,
+					"printed": want, "expected": "the text of the scoped printer and, read back, an object equal to x", "expected_from": "property statement"})
 			}
 		}
 		if reqIdx[i] >= 0 {
@@ -1774,7 +1938,17 @@ func c03Replay(c *lib.Ctx) {
 			fmt.Println("replay file has no usable term:", err)
 			return
 		}
-		aspect, payload, observed := c3WireRoundtrip(obj)
+		var aspect, payload, observed string
+		if gm, ok := rec["wire_global"].(map[string]any); ok {
+			cf := c3CfgFromMap(gm)
+			fmt.Printf("global printer set to %s\n", cf)
+			c3WithGlobal(func(g *slip.Printer) {
+				p := cf.printer()
+				g.Base, g.Radix, g.Case, g.Pretty, g.RightMargin, g.Array = p.Base, p.Radix, p.Case, p.Pretty, p.RightMargin, p.Array
+			}, func() { aspect, payload, observed = c3WireRoundtrip(obj) })
+		} else {
+			aspect, payload, observed = c3WireRoundtrip(obj)
+		}
 		fmt.Printf("replay swank wire message %s\n  payload: %q\n  result : %q %s\n  expected: the message read back is equal to the message written\n", term, payload, aspect, observed)
 		if aspect != "" {
 			c.Report("replay", false, map[string]any{"term": term, "wire": true})
@@ -1828,7 +2002,9 @@ func c03Replay(c *lib.Ctx) {
 	fmt.Printf("  round trip: %q   pretty vs flat: %q\n", res.wAspect, res.prettyAspect)
 	k := c3KFails(c, cs)
 	fmt.Printf("  model correspondence: %q\n", k)
-	if res.wAspect != "" || res.prettyAspect != "" || k != "" {
+	w := c3WFails(cs)
+	fmt.Printf("  scoped vs global printer: %q %q   other read bases: %q   all implementation-side checks: %q\n", res.leakAspect, res.leakText, res.altAspect, w)
+	if res.wAspect != "" || res.prettyAspect != "" || k != "" || w != "" {
 		c.Report("replay", false, cs.replay())
 	}
 }
